@@ -131,6 +131,38 @@ def rule_rewriters(ctx: Ctx, repo: Repo, tier: str) -> None:
                 ctx.check(admits(res, t), "R-C07.1", fi.fq, "the result admits the input", construct=f"{show(t)} -> {show(res)}")
 
 
+def rule_dispatch(ctx: Ctx, repo: Repo) -> None:
+    """R-C07.6: the entry point `rewrite(typ)` - the dispatch every shipped rewriter inherits - is interpreted for plain
+    classes, among them user classes that merely share their name with a typing alias: no exception, and a plain class
+    (no rewriter's trigger) comes back unchanged."""
+    plain = [RW.INT, RW.STR, NONE_T, RW.BASE, RW.L1, RW.X_] + [RW.cls(n) for n in RW.NAMESAKES]
+    n = 0
+    for cname in ("RemoveEmptyContainers", "RewriteConfigDict", "RewriteLargeUnion", "RewriteMostSpecificCommonBase", "RewriteGenerator", "NoOpRewriter", "TypeRewriter"):
+        ci = repo.cls(TY, cname)
+        fi = repo.method(ci, "rewrite")
+        if fi is None:
+            raise AnalysisError(f"{cname}.rewrite not found")
+        ctx.functions.add(fi.fq)
+        param = fi.positional_params()[1]
+        for t in plain:
+            sc = RewriterScenario(repo, cname, "rewrite", {"max_union_len": K(5)} if cname == "RewriteLargeUnion" else {})
+            gr = repo.method(ci, "generic_rewrite")
+            if gr is not None:
+                sc.ri.inline.add(gr.fq)
+            res = sc.result({param: t})
+            n += 1
+            lab = f"{cname}().rewrite({show(t)})" + (" - a user class that shares its name with a typing alias" if isinstance(t, S) and t.name in RW.NAMESAKES else "")
+            if isinstance(res, R) and res.kind == "raises":
+                ctx.violate("R-C07.6", fi.fq, f"dispatch by the bare __name__ of a plain class: {cname}().rewrite(<class {show(t)}>) raises {res.fields['what'].v}",
+                            "rewriting a plain class raises: the class is dispatched by its bare name to the handler of the typing alias of that name", scenario=lab)
+                continue
+            if isinstance(res, U):
+                raise AnalysisError(f"{lab}: result undetermined ({res})")
+            ctx.check(res == t, "R-C07.6", fi.fq, "a plain class comes back from rewrite() unchanged (no rewriter's trigger is a plain class)",
+                      construct=f"dispatch by the bare __name__ of a plain class: {lab} -> {show(res)}", scenario=lab)
+    ctx.floor("R-C07.6", "rewrite() dispatch scenarios on plain classes", n, 100)
+
+
 def rule_no_memory(ctx: Ctx, repo: Repo) -> None:
     """R-C07.3: a rewriter's answer depends on (its own configuration, the type) only - not on what another
     instance rewrote earlier in the same process (module-level objects persist across the two calls)."""
@@ -291,5 +323,6 @@ def run(ctx: Ctx, repo: Repo, tier: str) -> None:
     rule_no_memory(ctx, repo)
     rule_chain(ctx, repo)
     rule_container_recursion(ctx, repo)
+    rule_dispatch(ctx, repo)
     from .compat_rules import compat_predicates
     compat_predicates(ctx, repo, "R-C07.5", ("is_generic_of", "is_union", "is_generic", "is_any", "is_typed_dict", "types_equal"))
